@@ -98,3 +98,72 @@ Theorem C01_model_balance {T} {O : Ops T} {RL : RingLaws T}
          (scene_delta0 sc tm (as_source p)) (e0dir_entry sc (as_source p)) k m 0 b))%T))%T).
 Proof. intros WF Hnd Hd Hb. exact (model_balance sc tm b WF Hnd rho Hd Hb p N k). Qed.
 Print Assumptions C01_model_balance.
+
+(** (1'''') a caveat on [C01_model_balance], found while lifting C09 to the composed model: its
+    diffuse hypothesis quantifies over ALL table indices, and [beta] -- a total lookup into nested
+    lists -- returns 0 beyond the end of a table.  The hypothesis therefore only allows
+    reflectance 0 (cf. [C09_model_diffuse_everywhere_forces_zero]): [C01_model_balance] as stated
+    covers scenes that reflect nothing.  It is kept, and restated below with hypotheses a scene
+    given by lists can meet. *)
+From SV Require Import Proofs.ReciprocityVis Proofs.DiffuseBounded.
+Theorem C01_model_balance_forces_zero {T} {O : Ops T} (sc : @scene T) b (rho : nat -> T) :
+  (forall w a d, beta sc w a d b = rho w) -> forall w, rho w = 0%T.
+Proof. exact (diffuse_everywhere_forces_zero sc b rho). Qed.
+Print Assumptions C01_model_balance_forces_zero.
+
+(** (1''''') [C01_model_balance] with the diffuse hypothesis restricted to the IN-RANGE table
+    entries: walls that have a table index, incoming samples below the number of rows of that
+    wall's table, outgoing slots below [s_nd sc]; plus the shape condition that makes every
+    lookup of the model land in range (every patch's wall has a table index, a non-empty incoming
+    direction set, and a table row for each incoming direction).
+    Non-vacuity: [Instances/NonVacuity.v], [C01_model_balance_bounded_witness] (reflectances
+    1/2 and 1/3, every hypothesis checked by computation, both sides equal to a non-zero number). *)
+Theorem C01_model_balance_bounded {T} {O : Ops T} {RL : RingLaws T}
+    (sc : @scene T) tm b rho (p : @point_data T) N k :
+  wf_scene sc -> s_nd sc = 1 -> b < s_nb sc ->
+  (forall j, j < s_np sc ->
+     wall sc j < length (s_tidx sc) /\ in_dirs sc (wall sc j) <> [] /\
+     length (in_dirs sc (wall sc j)) <= length (nthl (s_tables sc) (nthn (s_tidx sc) (wall sc j)))) ->
+  (forall w a d, w < length (s_tidx sc) -> a < length (nthl (s_tables sc) (nthn (s_tidx sc) w)) ->
+     d < s_nd sc -> beta sc w a d b = rho w) ->
+  (forall m j, m < s_np sc -> j < s_np sc -> scene_delta sc tm m j <= N /\
+      forall t, N - scene_delta sc tm m j <= t -> t < N ->
+        E (directed (vis_pairs sc)) (scene_delta sc tm) (tilde_entry sc) (out_index sc)
+          (scene_delta0 sc tm (as_source p)) (e0dir_entry sc (as_source p)) k m 0 b t = 0%T) ->
+  sumf (seq 0 (s_np sc)) (fun j => hsum N
+    (E (directed (vis_pairs sc)) (scene_delta sc tm) (tilde_entry sc) (out_index sc)
+       (scene_delta0 sc tm (as_source p)) (e0dir_entry sc (as_source p)) (S k) j 0 b)) =
+  sumf (seq 0 (s_np sc)) (fun j =>
+    (rho (wall sc j) * sumf (seq 0 (s_np sc)) (fun m => (Gm sc b m j * hsum N
+      (E (directed (vis_pairs sc)) (scene_delta sc tm) (tilde_entry sc) (out_index sc)
+         (scene_delta0 sc tm (as_source p)) (e0dir_entry sc (as_source p)) k m 0 b))%T))%T).
+Proof.
+  intros WF Hnd Hb TO Hd. exact (model_balance_bounded sc tm b WF Hnd rho Hb p N k TO Hd).
+Qed.
+Print Assumptions C01_model_balance_bounded.
+
+(** ... and with the diffuse hypothesis asked only of the entries the model READS: the incoming
+    sample selected for each visible pair and for each patch the source sees, slot 0 (no shape
+    condition on the tables is needed then) *)
+Theorem C01_model_balance_vis {T} {O : Ops T} {RL : RingLaws T}
+    (sc : @scene T) tm b rho (p : @point_data T) N k :
+  wf_scene sc -> s_nd sc = 1 -> b < s_nb sc ->
+  (forall i j, i < s_np sc -> j < s_np sc -> vis_sym sc i j = true ->
+     beta sc (wall sc j) (in_index sc i j) 0 b = rho (wall sc j)) ->
+  (forall i, i < s_np sc -> nthb (p_vis p) i = true ->
+     beta sc (wall sc i) (src_in_index sc (as_source p) i) 0 b = rho (wall sc i)) ->
+  (forall m j, m < s_np sc -> j < s_np sc -> scene_delta sc tm m j <= N /\
+      forall t, N - scene_delta sc tm m j <= t -> t < N ->
+        E (directed (vis_pairs sc)) (scene_delta sc tm) (tilde_entry sc) (out_index sc)
+          (scene_delta0 sc tm (as_source p)) (e0dir_entry sc (as_source p)) k m 0 b t = 0%T) ->
+  sumf (seq 0 (s_np sc)) (fun j => hsum N
+    (E (directed (vis_pairs sc)) (scene_delta sc tm) (tilde_entry sc) (out_index sc)
+       (scene_delta0 sc tm (as_source p)) (e0dir_entry sc (as_source p)) (S k) j 0 b)) =
+  sumf (seq 0 (s_np sc)) (fun j =>
+    (rho (wall sc j) * sumf (seq 0 (s_np sc)) (fun m => (Gm sc b m j * hsum N
+      (E (directed (vis_pairs sc)) (scene_delta sc tm) (tilde_entry sc) (out_index sc)
+         (scene_delta0 sc tm (as_source p)) (e0dir_entry sc (as_source p)) k m 0 b))%T))%T).
+Proof.
+  intros WF Hnd Hb Hdp Hds. exact (model_balance_vis sc tm b WF Hnd rho Hb p N k Hdp Hds).
+Qed.
+Print Assumptions C01_model_balance_vis.
